@@ -28,6 +28,17 @@ def models_of(build):
     return res
 
 
+def loader_oracle():
+    """extracted model + driver; re-extract when the generated OCaml is gone although the .vo is up to date"""
+    if not os.path.exists(os.path.join(common.COQ, "loader_x.ml")):
+        for ext in (".vo", ".vos", ".vok", ".glob"):
+            try:
+                os.remove(os.path.join(common.COQ, "Extract", "Extract_loader" + ext))
+            except OSError:
+                pass
+    return common.build_oracle("loader", "Extract_loader", "loader_drv.ml", "loader_x")
+
+
 def loader_harness(build):
     hx = os.path.join(common.BUILD, "harness", "loader_h-" + build.tree)
     if not os.path.exists(hx):
